@@ -7,6 +7,7 @@
 From Coq Require Import ZArith List Bool Lia.
 Import ListNotations.
 Require Import MD.PBC.Model MD.PBC.Rounding MD.PBC.Proofs MD.PBC.GenTie MD.PBC.Check MD.PBC.CheckSound.
+Require Import MD.PBC.Kernel MD.PBC.KernelProofs MD.PBC.KernelTie.
 Open Scope Z_scope.
 
 (* the four rounding rules found in the code (roundf, floorf(x+.5), the SSE round, python round) all
@@ -198,3 +199,99 @@ Example ortho_hypotheses_satisfiable :
   ortho_pos B /\ strict_region B (path_disp POrthoSSE B (40000, -51234, 30011)).
 Proof. exact example_ortho. Qed.
 Print Assumptions ortho_hypotheses_satisfiable.
+
+(* ======================================================================================================
+   The code AS LOOPS OVER FLAT BUFFERS and the Python glue (PBC/Kernel.v) refine the model used above. *)
+
+(* the three nested image loops of geometry.cpp (min_dist2 = FLT_MAX, "<=") and of distance.py (start value r12,
+   "<" resp. min()) compute the arg-min folds of the model, candidate for candidate in the same order *)
+Theorem image_loops_refine_search : forall B w,
+  image_search_cpp image_lo image_hi (ba B) (bb B) (bc B) w = proj_last w (argmin_last (cands B w)) /\
+  image_search_np image_lo image_hi (ba B) (bb B) (bc B) w = proj_first (argmin_first (vzero, w) (cands B w)) /\
+  image_min_np image_lo image_hi (ba B) (bb B) (bc B) w = norm2 (snd (argmin_first (vzero, w) (cands B w))).
+Proof. intros B w. split; [apply image_search_cpp_spec | split; [apply image_search_np_spec | apply image_min_np_spec]]. Qed.
+Print Assumptions image_loops_refine_search.
+
+(* _distance_mic(_t) report the length of the vector _displacement_mic reports *)
+Theorem reference_distance_is_displacement_length : forall o B r, Some (np_pair_dist o B r) = fst (np_pair o B r).
+Proof. exact np_pair_dist_spec. Qed.
+Print Assumptions reference_distance_is_displacement_length.
+
+(* ValueError exactly for an atom (frame) index outside [0, n) or a cell array of the wrong length *)
+Theorem api_validation : forall a opt periodic n_atoms (xyz : list frame) boxes pairs times,
+  api_call a opt periodic n_atoms xyz boxes pairs times = Err ValueError <->
+  (valid_pairs n_atoms pairs = false \/
+   (a = ApiDistancesT /\ valid_pairs (zlen xyz) times = false) \/
+   (pairs <> [] /\ periodic = true /\ exists bs, boxes = Some bs /\ length bs <> length xyz)).
+Proof. exact api_error_iff. Qed.
+Print Assumptions api_validation.
+
+Theorem api_validation_meaning : forall n pairs, valid_pairs n pairs = true <->
+  forall pr, In pr pairs -> 0 <= fst pr < n /\ 0 <= snd pr < n.
+Proof. exact valid_pairs_spec. Qed.
+Print Assumptions api_validation_meaning.
+
+(* compute_displacements / compute_distances(_core), validated input: the frame loop, the pair loop, the offsets
+   3*pairs[2j+k] into the flat coordinate buffer, xyz += n_atoms*3, box_matrix += 9 and the column reads of the
+   transposed cell deliver, for frame i and pair (p1,p2), the dispatched path of the model on xyz[i][p2]-xyz[i][p1]
+   with the cell of frame i -- and no read leaves a buffer (the data is Some ...) *)
+Theorem api_frames : forall a opt periodic n (xyz : list frame) boxes pairs times,
+  a <> ApiDistancesT -> Forall (fun f : frame => length f = n) xyz ->
+  valid_pairs (Z.of_nat n) pairs = true -> pairs <> [] ->
+  (forall bs, periodic = true -> boxes = Some bs -> length bs = length xyz) ->
+  api_call a opt periodic (Z.of_nat n) xyz boxes pairs times =
+  Ok (api_shape a (zlen xyz) (zlen pairs))
+     (Some (flat_map (fun fB => map (fun pr =>
+              entry (dispatch opt periodic boxes) (snd fB) (vsub (atom (fst fB) (snd pr)) (atom (fst fB) (fst pr)))) pairs)
+            (frame_items periodic xyz boxes))).
+Proof. exact api_frames_refines. Qed.
+Print Assumptions api_frames.
+
+(* compute_distances_t: time_offset = 3*n_atoms*times[2i+k], box_offset = times[2i]*9 added before the cell is
+   loaded and taken back after the pair loop: entry (t1,t2),(p1,p2) = path on xyz[t2][p2]-xyz[t1][p1], cell of t1 *)
+Theorem api_times : forall opt periodic n (xyz : list frame) boxes pairs times,
+  Forall (fun f : frame => length f = n) xyz ->
+  valid_pairs (Z.of_nat n) pairs = true -> valid_pairs (zlen xyz) times = true -> pairs <> [] ->
+  (forall bs, periodic = true -> boxes = Some bs -> length bs = length xyz) ->
+  api_call ApiDistancesT opt periodic (Z.of_nat n) xyz boxes pairs times =
+  Ok [zlen times; zlen pairs]
+     (Some (flat_map (fun t => map (fun pr =>
+              let r := vsub (atom (frame_at xyz (snd t)) (snd pr)) (atom (frame_at xyz (fst t)) (fst pr)) in
+              entry (dispatch opt periodic boxes) (cell_at periodic boxes (fst t)) (if opt then r else vneg r)) pairs)
+            times)).
+Proof. exact api_times_refines. Qed.
+Print Assumptions api_times.
+
+Theorem api_empty : forall a opt periodic n_atoms (xyz : list frame) boxes times,
+  (a = ApiDistancesT -> valid_pairs (zlen xyz) times = true) ->
+  api_call a opt periodic n_atoms xyz boxes [] times =
+  Ok (map (gdim_val (zlen xyz) (zlen times)) (api_empty_shape a)) (Some []).
+Proof. exact empty_shape_is_modelled. Qed.
+Print Assumptions api_empty.
+
+(* without the validation the kernels read outside the coordinate buffer *)
+Theorem validation_is_needed :
+  kernel_frames KPlain (flat_xyz [[(0, 0, 0); (1, 1, 1)]]) (flat_pairs [(0, 2)]) [] 1 2 1 = None /\
+  kernel_frames KPlain (flat_xyz [[(0, 0, 0); (1, 1, 1)]]) (flat_pairs [(-1, 1)]) [] 1 2 1 = None /\
+  valid_pairs 2 [(0, 2)] = false /\ valid_pairs 2 [(-1, 1)] = false.
+Proof. exact kernel_unvalidated_reads_outside. Qed.
+Print Assumptions validation_is_needed.
+
+(* loop bounds, strides, offsets, pointer advances and their places, store order, validation comparisons,
+   statement order and empty shapes regenerated from today's source text are those of PBC/Kernel.v *)
+Theorem loops_match_source : kernel_tie_statement.
+Proof. exact kernel_tie. Qed.
+Print Assumptions loops_match_source.
+
+Example api_hypotheses_satisfiable :
+  let B := mkbox (3072, 0, 0) (5120, 3000, 0) (-7000, 8100, 2900) in
+  let xyz := [[(0, 0, 0); (117204, -30050, -28940)]; [(5, 5, 5); (100, -50, 60)]] in
+  api_call ApiDisplacements true true 2 xyz (Some [B; B]) [(0, 1); (1, 1)] [] =
+    Ok [2; 2; 3] (Some [(Some 16100, (100, -50, 60)); (Some 0, (0, 0, 0));
+                        (Some 15075, (95, -55, 55)); (Some 0, (0, 0, 0))]) /\
+  api_call ApiDistancesT false true 2 xyz (Some [B; B]) [(0, 1)] [(1, 0)] =
+    Ok [1; 1] (Some [(Some 15075, (-95, 55, -55))]) /\
+  api_call ApiDistancesCore true true 2 xyz (Some [B]) [(0, 1)] [] = Err ValueError /\
+  api_call ApiDistancesCore true true 2 xyz (Some [B; B]) [(0, 2)] [] = Err ValueError.
+Proof. exact api_example. Qed.
+Print Assumptions api_hypotheses_satisfiable.
